@@ -719,6 +719,10 @@ func C20(t *rapid.T) *world.Scenario {
 		case 1:
 			out = world.Reply{Kind: "resp", Status: 200, Body: world.Body{Len: 30}, Header: [][2]string{H("Date", "$T+0"),
 				H("Cache-Control", "max-age="+itoa(life)+", stale-while-revalidate="+itoa(win)), H("Etag", `"v$S"`)}}
+			if Pct(t, lbl+"-pause", 40) {
+				// a full reply that is still arriving when the header section has been read
+				out.Body.PauseAt = Pick(t, lbl+"-pauseat", 1, 2, 15, 30)
+			}
 		case 2:
 			out = world.Reply{Kind: "resp", Status: 200, Body: world.Body{Len: 30}, Header: [][2]string{H("Date", "$T+0"), H("Cache-Control", "no-store")}}
 		case 3:
